@@ -1,1 +1,39 @@
-fn main() { fvh::hello(); }
+use fvh::driver::Tier;
+
+fn main() {
+    let args: Vec<String> = std::env::args().skip(1).collect();
+    if args.is_empty() {
+        eprintln!("usage: check <property-id> [--tier quick|thorough] [--replay file] | check serve ...");
+        std::process::exit(2);
+    }
+    if args[0] == "serve" {
+        fvh::sut::serve_main(&args[1..]);
+    }
+    let id = args[0].clone();
+    let mut tier = match std::env::var("VERIF_TIER").ok().as_deref() {
+        Some("thorough") => Tier::Thorough,
+        _ => Tier::Quick,
+    };
+    let mut replay = None;
+    let mut i = 1;
+    while i < args.len() {
+        match args[i].as_str() {
+            "--tier" => {
+                tier = if args[i + 1] == "thorough" { Tier::Thorough } else { Tier::Quick };
+                i += 2;
+            }
+            "--replay" => {
+                let s = std::fs::read_to_string(&args[i + 1]).expect("read replay file");
+                replay = Some(serde_json::from_str(&s).expect("parse replay file"));
+                i += 2;
+            }
+            other => {
+                eprintln!("unknown argument {}", other);
+                std::process::exit(2);
+            }
+        }
+    }
+    let seed: u64 = std::env::var("VERIF_SEED").ok().and_then(|s| s.parse::<i64>().ok()).map(|v| v as u64).unwrap_or(1);
+    let code = fvh::props::run(&id, tier, seed, replay);
+    std::process::exit(code);
+}
